@@ -50,9 +50,13 @@ theorem PIPE_text_of_tree (t : Ast) (h : t.WF) (extra : Ast → Bool) (env : Env
     * a lexical error of `Lexer.tokenise` is reported with its class and ITS character index — and
       `tokenise` never runs out of fuel (C11_total), so a failing lex is always one of the four classes;
     * a parse error of `Parser.parse` at token `i` is reported with the marker at the start of token
-      `i`, or at the end of the last token when `i` is past the end (`parseErrIndex`);
-    * otherwise the parse tree is evaluated, reduced and displayed (`runTree`).
-    In the first two cases the session's bindings are untouched. -/
+      `i`, or at the end of the last token when `i` is past the end (`parseErrIndex`) — provided the
+      instant literals the parser has read before it (`instant_from_iso` runs at parse time) are
+      well-formed instants (`checkInstants … = none`; in particular when there is none);
+    * otherwise the parse tree is evaluated, reduced and displayed (`runTree`, which starts with the
+      same check of the tree's instant literals).
+    In the first two cases the session's bindings are untouched.  (What a malformed literal gives:
+    `PIPE_instant_parse_stage` in Props/Pipeline3.lean.) -/
 theorem PIPE_stages (env : Env) (s : List Char) (hs : s.all Lexer.inAlphabet = true) (hx : hugeExponent s = false) :
     (∀ e, Lexer.tokenise s = .error e →
         runIn env s = (env, lexOutcome e) ∧
@@ -61,7 +65,7 @@ theorem PIPE_stages (env : Env) (s : List Char) (hs : s.all Lexer.inAlphabet = t
          (∃ i, e = .unclosedString i ∧ lexOutcome e = .lexErr "UnclosedStringError" i) ∨
          (∃ i, e = .unclosedInstant i ∧ lexOutcome e = .lexErr "UnclosedInstantError" i))) ∧
     (∀ toks i, Lexer.tokenise s = .ok toks → parse toks = .error (.parsing i) →
-        (toks.take i).any (fun t => t.tag == .inst) = false →
+        checkInstants (tokInstTexts (toks.take i)) = none →
         runIn env s = (env, .parseErr (parseErrIndex toks i))) ∧
     (∀ toks t, Lexer.tokenise s = .ok toks → parse toks = .ok t → runIn env s = runTree env t) := by
   refine ⟨fun e he => ⟨?_, ?_⟩, fun toks i hl hp hi => ?_, fun toks t hl hp => ?_⟩
@@ -434,14 +438,15 @@ def dispOutcome (d : Display.DVal) : Outcome :=
   | .ok t => .ok (String.ofList t)
   | .error e => .evalErr e
 
-/-- **C15 inside the pipeline.**  Whatever program tree is run (no instant literal in it): when its value
-    `v` is a number, quantity, array, interval or string (`toDVal v = some d` — everything except a lazy
-    combinatoric and `None`), the text `execute` writes to the output stream is exactly
+/-- **C15 inside the pipeline.**  Whatever program tree is run (its instant literals, if any, being
+    well-formed: `checkInstants … = none`): when its value `v` is a number, quantity, array, interval,
+    string or instant (`toDVal v = some d` — everything except a lazy combinatoric, a random variable /
+    event and `None`), the text `execute` writes to the output stream is exactly
     `Display.displayResult` of `d` with the base-unit names of the generated unit table, default
     precision, no fraction brackets — the function C15's theorems (integers in full, mixed fractions,
     `%g` floats, quantities, arrays, intervals) are stated about.  A lazy combinatoric is resolved first
     (`reduce_result`) and its number displayed. -/
-theorem PIPE_display (env env' : Env) (t : Ast) (hi : hasInstant t = false) (v : Val)
+theorem PIPE_display (env env' : Env) (t : Ast) (hi : checkInstants (instTexts t) = none) (v : Val)
     (hv : runProgram env t = (env', .ok v)) :
     (∀ d, toDVal v = some d → runTree env t = (env', dispOutcome d)) ∧
     (∀ c, v = .comb c → runTree env t = (env', numOutcome c.resolve)) := by
@@ -452,11 +457,11 @@ theorem PIPE_display (env env' : Env) (t : Ast) (hi : hasInstant t = false) (v :
         | .ok t => .ok (String.ofList t) | .error e => .error (.err e)) := by
       cases v <;> simp only [toDVal, reduceCtorEq] at hd <;> simp only [displayText, hd, toDVal] <;>
         cases Display.displayResult unitNames Display.defaultPrecision false d <;> rfl
-    simp only [runTree, hi, hv, hr, bind, Except.bind, hn, dispOutcome, Bool.false_eq_true, if_false]
+    simp only [runTree, hi, hv, hr, bind, Except.bind, hn, dispOutcome]
     cases Display.displayResult unitNames Display.defaultPrecision false d <;> rfl
   · intro c hc
     subst hc
-    simp only [runTree, hi, hv, reduceResult, resolveLazy, Bool.false_eq_true, if_false]
+    simp only [runTree, hi, hv, reduceResult, resolveLazy]
     cases c.resolve with
     | error e => rfl
     | ok x =>
@@ -465,7 +470,7 @@ theorem PIPE_display (env env' : Env) (t : Ast) (hi : hasInstant t = false) (v :
 
 /-- C15's "integers print in full", for what the pipeline prints: a program whose value is the integer
     `n` (of any size) prints exactly its decimal expansion and a newline. -/
-theorem PIPE_display_int (env env' : Env) (t : Ast) (hi : hasInstant t = false) (n : Int)
+theorem PIPE_display_int (env env' : Env) (t : Ast) (hi : checkInstants (instTexts t) = none) (n : Int)
     (hv : runProgram env t = (env', .ok (.num (.int n)))) :
     runTree env t = (env', .ok (String.ofList (Display.intText n ++ ['\n']))) := by
   rw [(PIPE_display env env' t hi _ hv).1 (.num (.int n)) rfl, dispOutcome,
@@ -562,6 +567,12 @@ theorem PIPE_display_total (names : List Display.Text) (N : Int) (b : Bool) (d :
 theorem PIPE_display_stage (env : Env) (t : Ast) (c : String) (h : (treeStages env t).display = some c) :
     ∃ env' comb e, runProgram env t = (env', .ok (.comb comb)) ∧ comb.resolve = .error e := by
   unfold treeStages at h
+  rcases checkInstants_cases (instTexts t) with hc | hc | hc
+  rotate_left
+  · rw [hc] at h; simp at h
+  · rw [hc] at h; simp at h
+  rw [hc] at h
+  simp only at h
   rcases hp : runProgram env t with ⟨env', r⟩
   rw [hp] at h
   cases r with
@@ -587,6 +598,9 @@ theorem PIPE_display_stage (env : Env) (t : Ast) (c : String) (h : (treeStages e
       | arr xs => exact key (.arr xs)
       | intv a b => exact key (.intv a b)
       | str s => exact key (.str s)
+      | inst i => exact key (.inst i)
+      | rv x => simp [displayText]
+      | event ops pos x args => simp [displayText]
     cases v with
     | comb cb =>
       cases hr : cb.resolve with
@@ -610,7 +624,8 @@ open Gen.Exec in
     verdict — status 0 with text on the output stream only / status 1 with the diagnostic on the error
     stream only / an escaping exception — is what the unified model's outcome shows (`observe`).
     The lexical and parse stages need no hypothesis: the model only raises the four caught lexical classes,
-    ParsingError (caught), or OverflowError out of `parse_number` (not caught: escapes in both).  For the
+    ParsingError (caught), the KaRuntimeError of a malformed instant literal (`instant_from_iso` runs inside
+    `parse_tokens`; caught there), or OverflowError out of `parse_number` (not caught: escapes in both).  For the
     evaluation stage the hypotheses are those of `C06_no_escape_current`: the class raised is one of Ka's
     own (or ZeroDivisionError / OverflowError, which `eval_parse_tree` converts), and the display stage
     raises nothing (`PIPE_display_stage`: it cannot, except for a lazy value whose resolution fails). -/
@@ -619,7 +634,7 @@ theorem PIPE_execute (env : Env) (s : List Char) (hs : s.all Lexer.inAlphabet = 
     (hown : ∀ c, (stagesOf env s).evalTree = some c → c ∈ ownClasses)
     (hdisp : (stagesOf env s).display = none) :
     Exec.execute lexCaught parseCaught evalCaught evalConverted (stagesOf env s) = x := by
-  obtain ⟨hL, hP, hO, hE⟩ := handler_table
+  obtain ⟨hL, hP, hK, hO, hE⟩ := handler_table
   simp only [runIn, hs, hx, Bool.not_true, Bool.false_eq_true, if_false] at hobs
   unfold stagesOf at hown hdisp ⊢
   cases hl : Lexer.tokenise s with
@@ -631,22 +646,25 @@ theorem PIPE_execute (env : Env) (s : List Char) (hs : s.all Lexer.inAlphabet = 
     simp only [hl, runTokens] at hobs hown hdisp ⊢
     cases hp : parse toks with
     | error pe =>
-      simp only [hp] at hobs ⊢
+      simp only [hp] at hobs hown hdisp ⊢
       cases pe with
       | parsing i =>
         simp only at hobs ⊢
+        rcases checkInstants_cases (tokInstTexts (toks.take i)) with hc | hc | hc <;> simp only [hc] at hobs ⊢
+        · simp only [observe, Option.some.injEq] at hobs; subst hobs; exact hP
+        · simp [observe] at hobs
+        · simp only [observe, Option.some.injEq] at hobs; subst hobs; exact hK
+      | overflow =>
+        simp only at hobs ⊢
         split at hobs
         · simp [observe] at hobs
-        · simp only [observe, Option.some.injEq] at hobs; subst hobs; exact hP
-      | overflow =>
-        simp only [observe, Option.some.injEq] at hobs ⊢; subst hobs; exact hO
+        · simp only [observe, Option.some.injEq] at hobs; subst hobs; exact hO
       | fuel => simp [observe] at hobs
     | ok t =>
       simp only [hp] at hobs hown hdisp ⊢
       unfold runTree at hobs
       unfold treeStages at hown hdisp ⊢
-      split at hobs
-      · simp [observe] at hobs
+      rcases checkInstants_cases (instTexts t) with hc | hc | hc <;> simp only [hc] at hobs hown hdisp ⊢
       · rcases hr : runProgram env t with ⟨env', r⟩
         simp only [hr] at hobs hown hdisp ⊢
         cases r with
@@ -669,6 +687,8 @@ theorem PIPE_execute (env : Env) (s : List Char) (hs : s.all Lexer.inAlphabet = 
             | err e => simp [hd] at hdisp
             | unmodelled w => simp [hd, ofEvalErr, observe] at hobs
             | fuel => simp [hd, ofEvalErr, observe] at hobs
+      · simp [observe] at hobs
+      · simp only [observe, Option.some.injEq] at hobs; subst hobs; exact hK
 
 /-- **The shape C06 demands, for every input**: the unified model's outcome is exactly one of — status 0
     with an output text, status 1 with a lexical / parse / evaluation diagnostic, an escaping
@@ -685,6 +705,9 @@ theorem PIPE_outcome_shape (env : Env) (s : List Char) :
   | unmodelled w => exact Or.inr (Or.inr (Or.inr (Or.inr (Or.inr ⟨w, rfl⟩))))
   | escaped c =>
     refine Or.inr (Or.inr (Or.inr (Or.inr (Or.inl ?_))))
+    have hci : ∀ texts, checkInstants texts ≠ some (.escaped c) := by
+      intro texts hc
+      rcases checkInstants_cases texts with h' | h' | h' <;> rw [h'] at hc <;> cases hc
     unfold runIn at h
     split at h
     · cases h
@@ -695,13 +718,17 @@ theorem PIPE_outcome_shape (env : Env) (s : List Char) :
         · rename_i toks _
           unfold runTokens at h
           split at h
-          · split at h <;> cases h
-          · exact h.symm
+          · split at h
+            · rename_i o hc; simp only at h; subst h; exact absurd hc (hci _)
+            · cases h
+          · split at h
+            · cases h
+            · exact h.symm
           · cases h
           · rename_i t _
             unfold runTree at h
             split at h
-            · cases h
+            · rename_i o hc; simp only at h; subst h; exact absurd hc (hci _)
             · split at h
               · rename_i e _; cases e <;> cases h
               · split at h
@@ -755,8 +782,10 @@ example : ∀ x ∈ [Num.int 3, .int (-4), .frac (1/2)], Canon x := by
   have h : ∀ y ∈ [Num.int 3, .int (-4), .frac (1/2)], storedNum y = true := by decide +kernel
   exact simplify_stored x (h x hx)
 example : ((5 : Int) + 1 - 2).toNat ≤ maxRange := by decide
-example : runProgram initialEnv (.num (.int 5)) = (initialEnv, .ok (.num (.int 5))) ∧ hasInstant (.num (.int 5)) = false
-    ∧ (toDVal (.num (.int 5))).isSome = true := ⟨rfl, rfl, rfl⟩
+example : runProgram initialEnv (.num (.int 5)) = (initialEnv, .ok (.num (.int 5)))
+    ∧ checkInstants (instTexts (.num (.int 5))) = none
+    ∧ checkInstants (instTexts (.bin .add (.inst "2020-02") (.num (.int 5)))) = none
+    ∧ (toDVal (.num (.int 5))).isSome = true := ⟨rfl, rfl, by decide +kernel, rfl⟩
 
 set_option maxRecDepth 100000 in
 example : (runText "10!/4!/7!").render = "ok 30\n" := by decide +kernel
